@@ -547,10 +547,13 @@ fn main() {
         let _ = fs::remove_dir_all(&work);
         return;
     }
-    warm_up(&work);
+    let cold = cmd == "c15" && args.iter().any(|a| a == "--cold");
+    if !cold {
+        warm_up(&work);
+    }
     match cmd.as_str() {
         "probe" => probe(&mut ctx),
-        "c15" => c15::suite(&mut ctx),
+        "c15" => c15::suite(&mut ctx, cold),
         "reopen" => procsuite::suite_reopen(&mut ctx, seed, args.iter().any(|a| a == "--thorough")),
         "proc-new" => procsuite::suite_new(&mut ctx),
         "proc-live" => procsuite::suite_live(&mut ctx, seed, n),
